@@ -157,6 +157,21 @@ pub mod stubs {
 		ser::Error::IOErr(String::new(), k)
 	}
 
+	// ---- E15: std's unstable sort (ipnsort / sorting networks over raw pointers) replaced by
+	// an insertion sort with the same signature and comparator
+	pub fn insertion_sort<T, F: FnMut(&T, &T) -> bool>(v: &mut [T], is_less: &mut F) {
+		let n = v.len();
+		let mut i = 1;
+		while i < n {
+			let mut j = i;
+			while j > 0 && is_less(&v[j], &v[j - 1]) {
+				v.swap(j, j - 1);
+				j -= 1;
+			}
+			i += 1;
+		}
+	}
+
 	// ---- E14: zeroize's compiler barrier is inline asm with no data effect
 	pub fn optimization_barrier<T: ?Sized>(_v: &T) {}
 
@@ -190,6 +205,44 @@ pub mod stubs {
 			s.h[$a][$b] = s.h[$a][$b].rotate_left($k + 1) ^ acc.rotate_left(5 * $k + 3) ^ m[$k] ^ m[$k + 8].rotate_left(13);
 		)* } }
 		mixh!(0,0,0; 0,1,1; 0,2,2; 0,3,3; 1,0,4; 1,1,5; 1,2,6; 1,3,7);
+	}
+
+	// ---- E4b: ideal hash. Every distinct single-block message (block words + length) gets a
+	// fresh identifier; equal messages get the same one. Collision freedom is thereby an
+	// explicit assumption of every harness that uses it ("tampering is detected" is true only
+	// modulo collision resistance). All of grin's MMR hashes are single-block (<= 128 bytes).
+	pub const IDEAL_N: usize = 40;
+	pub static mut IDEAL_KEYS: [[u64; 17]; IDEAL_N] = [[0; 17]; IDEAL_N];
+	pub static mut IDEAL_LEN: usize = 0;
+	pub fn blake2b_compress_ideal(st: &mut b2::blake2b::Blake2b, f0: u64, _f1: u64) {
+		let s: &mut B2Mirror = unsafe { &mut *(st as *mut b2::blake2b::Blake2b as *mut B2Mirror) };
+		kani::assert(s.t <= 128 && f0 == !0, "ideal hash model: single-block messages only");
+		let mut key = [0u64; 17];
+		key[..16].copy_from_slice(&s.m);
+		key[16] = s.t;
+		let mut id = 0usize;
+		let mut found = false;
+		let mut i = 0;
+		unsafe {
+			while i < IDEAL_N {
+				if i < IDEAL_LEN && !found && IDEAL_KEYS[i] == key {
+					id = i;
+					found = true;
+				}
+				i += 1;
+			}
+			if !found {
+				kani::assert(IDEAL_LEN < IDEAL_N, "ideal hash table large enough for this harness");
+				kani::assume(IDEAL_LEN < IDEAL_N);
+				id = IDEAL_LEN;
+				IDEAL_KEYS[id] = key;
+				IDEAL_LEN += 1;
+			}
+		}
+		// the digest is the first 32 bytes of h: an injective image of the identifier
+		let v = id as u64 + 1;
+		s.h[0] = [v ^ 0x9e37_79b9_7f4a_7c15, v.rotate_left(17) ^ 0x1234_5678_9abc_def0, !v, v << 32 | v];
+		s.h[1] = [0; 4];
 	}
 
 	// ---- E12: allocation ghost. Every request is checked against ALLOC_LIMIT (set by the
@@ -248,6 +301,11 @@ macro_rules! proof {
 			#[cfg_attr(kani, kani::stub(b2::blake2b::Blake2b::compress, crate::env::stubs::blake2b_compress_mix))]
 		] $($rest)* }
 	};
+	( @acc [hash_ideal, $($g:ident,)*] [$($a:tt)*] $($rest:tt)* ) => {
+		$crate::proof! { @acc [$($g,)*] [$($a)*
+			#[cfg_attr(kani, kani::stub(b2::blake2b::Blake2b::compress, crate::env::stubs::blake2b_compress_ideal))]
+		] $($rest)* }
+	};
 	( @acc [alloc, $($g:ident,)*] [$($a:tt)*] $($rest:tt)* ) => {
 		$crate::proof! { @acc [$($g,)*] [$($a)*
 			#[cfg_attr(kani, kani::stub(alloc::alloc::alloc, crate::env::stubs::alloc_rec))]
@@ -261,6 +319,26 @@ macro_rules! proof {
 	( @acc [rand, $($g:ident,)*] [$($a:tt)*] $($rest:tt)* ) => {
 		$crate::proof! { @acc [$($g,)*] [$($a)*
 			#[cfg_attr(kani, kani::stub(std::collections::hash_map::RandomState::new, crate::env::stubs::random_state_new))]
+		] $($rest)* }
+	};
+	( @acc [sort, $($g:ident,)*] [$($a:tt)*] $($rest:tt)* ) => {
+		$crate::proof! { @acc [$($g,)*] [$($a)*
+			#[cfg_attr(kani, kani::stub(core::slice::sort::unstable::sort, crate::env::stubs::insertion_sort))]
+		] $($rest)* }
+	};
+	( @acc [secp, $($g:ident,)*] [$($a:tt)*] $($rest:tt)* ) => {
+		$crate::proof! { @acc [$($g,)*] [$($a)*
+			#[cfg_attr(kani, kani::stub(grin_util::secp_static::static_secp_instance, crate::secp_model::static_secp_instance))]
+			#[cfg_attr(kani, kani::stub(<grin_util::secp::Secp256k1 as core::ops::Drop>::drop, crate::secp_model::secp_drop))]
+			#[cfg_attr(kani, kani::stub(grin_util::secp::Secp256k1::commit, crate::secp_model::commit))]
+			#[cfg_attr(kani, kani::stub(grin_util::secp::Secp256k1::commit_value, crate::secp_model::commit_value))]
+			#[cfg_attr(kani, kani::stub(grin_util::secp::Secp256k1::commit_sum, crate::secp_model::commit_sum))]
+			#[cfg_attr(kani, kani::stub(grin_util::secp::Secp256k1::blind_sum, crate::secp_model::blind_sum))]
+			#[cfg_attr(kani, kani::stub(grin_util::secp::key::SecretKey::from_slice, crate::secp_model::secret_key_from_slice))]
+			#[cfg_attr(kani, kani::stub(grin_util::secp::pedersen::Commitment::to_pubkey, crate::secp_model::to_pubkey))]
+			#[cfg_attr(kani, kani::stub(grin_util::secp::aggsig::verify_batch, crate::secp_model::verify_batch))]
+			#[cfg_attr(kani, kani::stub(grin_util::secp::Secp256k1::verify_bullet_proof_multi, crate::secp_model::verify_bullet_proof_multi))]
+			#[cfg_attr(kani, kani::stub(zeroize::barrier::optimization_barrier, crate::env::stubs::optimization_barrier))]
 		] $($rest)* }
 	};
 	( @acc [zeroize, $($g:ident,)*] [$($a:tt)*] $($rest:tt)* ) => {
@@ -312,5 +390,7 @@ macro_rules! base_uses {
 		use ::blake2 as b2;
 		#[allow(unused_imports)]
 		use ::zeroize;
+		#[allow(unused_imports)]
+		use ::grin_util;
 	};
 }
